@@ -38,7 +38,7 @@ func c18(r *Report) propMeta {
 	r.ArgHas("stored-current-group", ex, "Keeper.SetCurrentGroup", 1, 1, "call:types.NewCurrentGroup")
 	se := bK + "ShouldExecuteGroupTransition"
 	r.Gate("due-means-found-and-time", se, RetConst(1, "true"), []Cond{found,
-		{Op: "LSS", A: []string{"call:Context.BlockTime"}, B: []string{"field:GroupTransition.ExecTime"}, Want: false, Desc: "not ExecTime.After(BlockTime)"}}, GateOpts{})
+		{Op: "LSS", A: []string{"call:Context.BlockTime", "!call:Time.Unix"}, B: []string{"field:GroupTransition.ExecTime", "!call:Time.Unix"}, Want: false, Desc: "not ExecTime.After(BlockTime)"}}, GateOpts{})
 	r.Exists("due-returns-stored-transition", se, RetValEff(0, "call:Keeper.GetGroupTransition"), 1)
 
 	r.Rule("C18.R3", "census of GroupTransition.Status")
@@ -69,7 +69,7 @@ func c18(r *Report) propMeta {
 		{Op: "EQL", A: []string{"field:GroupTransition.IncomingGroupID"}, B: []string{"param:groupID"}, Want: true, Desc: "IncomingGroupID == groupID"},
 		statusIs(stCreating, "CREATING_GROUP")}
 	r.Gate("completed-guards", og, CallEff("Keeper.SetGroupTransition"), append(append([]Cond{}, matchCreating...),
-		Cond{Op: "LSS", A: []string{"field:GroupTransition.ExecTime"}, B: []string{"call:Context.BlockTime"}, Want: false, Desc: "not ExecTime.Before(BlockTime)"}), GateOpts{})
+		Cond{Op: "LSS", A: []string{"field:GroupTransition.ExecTime", "!call:Time.Unix"}, B: []string{"call:Context.BlockTime", "!call:Time.Unix"}, Want: false, Desc: "not ExecTime.Before(BlockTime) (full time resolution, not whole seconds: seed C18-13)"}), GateOpts{})
 	r.Gate("completed-guards-members", og, CallEff("Keeper.AddMembers"), matchCreating, GateOpts{})
 	r.Gate("completed-guards-signing", og, CallEff("Keeper.CreateTransitionSigning"), matchCreating, GateOpts{})
 	r.Gate("failed-guards", bCB+"OnGroupCreationFailed", CallEff("Keeper.EndGroupTransitionProcess"), matchCreating, GateOpts{})
